@@ -2,43 +2,45 @@ import GooseVerif.Model.MapClear
 
 namespace GooseVerif.Model.MapClear
 
-variable {κ ν : Type} [DecidableEq κ]
+variable {κ ν : Type}
 
-theorem erase_length_le (m : GoMap κ ν) (k : κ) : (erase m k).length ≤ m.length :=
-  List.length_filter_le _ _
+/-- The loop keeps exactly the entries whose key equals none of the produced keys. -/
+theorem loopClear_eq_filter (eq : κ → κ → Bool) (order : List (κ × ν)) (m : GoMap κ ν) :
+    loopClear eq order m = m.filter (fun q => order.all (fun p => !eq q.1 p.1)) := by
+  unfold loopClear
+  induction order generalizing m with
+  | nil =>
+    simp only [List.foldl_nil, List.all_nil]
+    exact (List.filter_eq_self.mpr (fun _ _ => rfl)).symm
+  | cons p ps ih =>
+    rw [List.foldl_cons, ih]
+    simp only [eraseBy, List.filter_filter, List.all_cons]
+    congr 1
+    funext q
+    exact Bool.and_comm _ _
 
-theorem erase_length_lt (m : GoMap κ ν) (p : κ × ν) (h : p ∈ m) : (erase m p.1).length < m.length := by
-  unfold erase
-  apply List.length_filter_lt_length_iff_exists.mpr
-  exact ⟨p, h, by simp⟩
+/-- Reflexive key equality (every key type except those containing floats): when `range` produces
+every entry, the loop empties the map, in whatever order. -/
+theorem loopClear_empty_of_refl (eq : κ → κ → Bool) (order : List (κ × ν)) (m : GoMap κ ν)
+    (hrefl : ∀ q ∈ m, eq q.1 q.1 = true) (hall : ∀ q ∈ m, q ∈ order) :
+    loopClear eq order m = [] := by
+  rw [loopClear_eq_filter]
+  apply List.filter_eq_nil_iff.mpr
+  intro q hq
+  intro h
+  have h2 := (List.all_eq_true.mp h) q (hall q hq)
+  simp [hrefl q hq] at h2
 
-theorem stepClear_lt (pick : Nat) (m : GoMap κ ν) (h : m ≠ []) : (stepClear pick m).length < m.length := by
-  unfold stepClear
-  have hpos : 0 < m.length := List.length_pos_iff.mpr h
-  have hlt : pick % m.length < m.length := Nat.mod_lt _ hpos
-  rw [List.getElem?_eq_getElem hlt]
-  exact erase_length_lt m _ (List.getElem_mem hlt)
+/-- A key that is equal to nothing (NaN) survives the loop, in whatever order. -/
+theorem loopClear_keeps_irreflexive (eq : κ → κ → Bool) (order : List (κ × ν)) (m : GoMap κ ν)
+    (q : κ × ν) (hq : q ∈ m) (hnan : ∀ k, eq q.1 k = false) :
+    q ∈ loopClear eq order m := by
+  rw [loopClear_eq_filter]
+  apply List.mem_filter.mpr
+  refine ⟨hq, ?_⟩
+  simp [hnan]
 
-theorem runClear_empty (fuel : Nat) (picks : Nat → Nat) (m : GoMap κ ν) (h : m.length ≤ fuel) :
-    runClear fuel picks m = [] := by
-  induction fuel generalizing picks m with
-  | zero =>
-    have : m = [] := List.eq_nil_of_length_eq_zero (by omega)
-    simp [runClear, this]
-  | succ f ih =>
-    unfold runClear
-    split
-    · rename_i he; simpa using he
-    · rename_i he
-      have hne : m ≠ [] := by intro h0; simp [h0] at he
-      apply ih
-      have := stepClear_lt (picks 0) m hne
-      omega
-
-theorem mapClear_empty' (picks : Nat → Nat) (m : GoMap κ ν) : mapClear picks m = [] :=
-  runClear_empty _ _ _ (Nat.le_refl _)
-
-theorem lookup_insert_nil (k : κ) (v : ν) : lookup (insert ([] : GoMap κ ν) k v) k = some v := by
+theorem lookup_insert_nil [DecidableEq κ] (k : κ) (v : ν) : lookup (insert ([] : GoMap κ ν) k v) k = some v := by
   simp [lookup, insert, erase]
 
 end GooseVerif.Model.MapClear
